@@ -13,7 +13,7 @@ RULE = ("seeded structured elections x (any shipped measure incl. Chamberlin-Cou
         "exhaustiveness recomputed; plus an exact-arithmetic stress stream (costs proportional to support by a non-dyadic rational factor: "
         "integral and fractional costs tied on satisfaction per cost with a budget that fits only some; cardinal scores above 2**53 whose "
         "totals differ by a unit); plus calls passing sat_profile= (alone, next to a sat_class naming another measure, for a part of the "
-        "electorate, without voters) and elections without voters, judged by the documented precedence (predicate only); non-trivial = at least 2 projects bought and at least one project left out")
+        "electorate, without voters), voter-normalised measures on elections with repeated costs and large ballots, and elections without voters, judged by the documented precedence (predicate only); non-trivial = at least 2 projects bought and at least one project left out")
 ASSUMPTIONS = ["non-negative utilities", "feasible initial allocation", "exact-arithmetic mode"]
 TRUSTED = ["log measures: set-function values dumped from the library's own measure objects"]
 
@@ -122,6 +122,26 @@ def exact_pairs(ctx, n):
         yield case, cfg
 
 
+NORMALISED = {"app": ["Relative_Cardinality_Sat", "Relative_Cardinality_Sat", "Relative_Cost_Approx_Normaliser_Sat", "Effort_Sat", "Cost_Sat"],
+              "card": ["Additive_Cardinal_Sat"], "ord": ["Additive_Borda_Sat"]}
+
+
+def normalised_pairs(ctx, n):
+    """voter-normalised measures on elections with repeated costs and large ballots (the normalisers — how many of the ballot's
+    projects fit together, what they cost — are computed by helpers of the instance, far from the rule)"""
+    rng = ctx.rng
+    for _ in range(n):
+        case = core.gen_equalcost_election(rng, btypes=("app", "app", "app", "card", "ord"))
+        cfg = rulegen.gen_rule_cfg(rng, case, rules=("greedy",), allow_refuse=False, allow_float=False)
+        if cfg["sat"] not in ("CC_Sat",):
+            cfg["sat"] = rng.choice(NORMALISED[case.btype])
+            cfg["additive"] = rng.choice([None, True, False])
+        if not cfg["res"] and len(case.projects) > 5:
+            cfg["res"] = True
+        ctx.count("stream", "normalised-measures:" + cfg["sat"])
+        yield case, cfg
+
+
 def satprofile_pairs(ctx, n):
     """calls that pass sat_profile=: alone (with or without the additivity flag), next to a sat_class naming another measure,
     holding only some voters of the profile argument, or holding no voter at all; and elections WITHOUT voters called in
@@ -160,6 +180,8 @@ def run(ctx):
     items += ruleprops.run_items(ctx, exact_pairs(ctx, ctx.scale(1500, 10000)), predicate, nontrivial)
     # round 4 (drawn last: the seeds of the streams above are unchanged); predicate only
     items += ruleprops.run_items(ctx, satprofile_pairs(ctx, ctx.scale(1200, 10000)), predicate, nontrivial, compare=False)
+    # round 5/6: voter-normalised measures on repeated costs (drawn last)
+    items += ruleprops.run_items(ctx, normalised_pairs(ctx, ctx.scale(1500, 10000)), predicate, nontrivial)
     ctx.extra["additive_flag"] = {str(k): sum(1 for it in items if it.cfg.get("additive") == k) for k in (None, True, False)}
 
 
@@ -168,6 +190,7 @@ def search(ctx, disagreements):
     ruleprops.run_items(ctx, pairs(ctx, 8000), predicate, nontrivial, compare=False)
     ruleprops.run_items(ctx, exact_pairs(ctx, 6000), predicate, nontrivial, compare=False)
     ruleprops.run_items(ctx, satprofile_pairs(ctx, 4000), predicate, nontrivial, compare=False, keep=False)
+    ruleprops.run_items(ctx, normalised_pairs(ctx, 6000), predicate, nontrivial, compare=False, keep=False)
 
 
 def replay(payload):
